@@ -129,4 +129,19 @@ def rule_regex(ctx, rep):
     except PyRaise as e:
         got = f"rejected ({e.exc})"
     rep.check(got == "rejected (ValueError)", rule, "pattern text without '=>' is rejected", where, got, "rejected (ValueError)")
+    # a conditional branch is not straight-line code, even when its target is the instruction that follows it
+    src_b = "#pragma version 6\nstart:\nint 1\nbnz skip\nskip:\nint 4\npop\nint 1\nreturn\n"
+    teal_b = w.call(pt, src_b, "c")
+    for patname, pat, want_b in (("int 1 / bnz skip / skip:", "int 1\nbnz skip\nskip:", []), ("bnz skip / skip: / int 4", "bnz skip\nskip:\nint 4", []),
+                                 ("int 1 / bnz skip", "int 1\nbnz skip", [[3, 4]]), ("skip: / int 4 / pop", "skip:\nint 4\npop", [[5, 6, 7]])):
+        try:
+            w.stdout = []
+            ms, cov = w.call(match, teal_b, w.call(parse_rx, f"start =>\n{pat}\n"))
+            got_b = sorted([w.getattr(i, "line") for i in m] for m in ms)
+        except PyRaise as e:
+            got_b = f"RAISES {e.exc} {e.where}"
+        finally:
+            w.stdout = None
+        rep.check(got_b == want_b, rule, f"branch to the directly following label / start => {patname}", where, got_b, want_b,
+                  why="a pattern is matched through a conditional branch (or not matched in straight-line code next to one)")
     rep.count("regex evaluations", n)
